@@ -79,9 +79,16 @@ if spec["variant"] == "after-unrelated":
     except Exception:
         pass
     configs = list(reversed(configs))
+import signal
+class _Slow(Exception):
+    pass
+def _alarm(signum, frame):
+    raise _Slow()
+signal.signal(signal.SIGALRM, _alarm)
 LAYOUT = "MEMORY flash LOCATION=0x1000 SIZE=0x80000 { SECTION(code) ALIGN(8) SECTION(data) }\nMEMORY ram LOCATION=0x20000000 SIZE=0x10000 { SECTION(bss) }"
 for arch, opt in configs:
     key = f"{arch}:O{opt}"
+    signal.setitimer(signal.ITIMER_REAL, spec.get("per_config_timeout", 45))
     try:
         o = cc(io.StringIO(spec["source"]), arch, opt_level=opt, debug=spec.get("debug", False))
         f = io.StringIO(); o.save(f)
@@ -93,8 +100,12 @@ for arch, opt in configs:
         except Exception as e:
             hi = "link-" + type(e).__name__
         out[key] = [h, hi]
+    except _Slow:
+        out[key] = ["slow", ""]          # load-dependent: carries no information, never compared
     except Exception as e:
         out[key] = ["raise-" + type(e).__name__, ""]
+    finally:
+        signal.setitimer(signal.ITIMER_REAL, 0)
 print(json.dumps(out))
 '''
 
@@ -210,7 +221,9 @@ def gen_source(rng):
     return "\n".join(out) + "\n"
 
 
-def run_worker(repo, spec, hashseed, timeout=240):
+def run_worker(repo, spec, hashseed, timeout=None):
+    if timeout is None:     # every configuration has its own 45 s limit inside the worker
+        timeout = 90 + 50 * len(spec["configs"])
     env = dict(os.environ, PYTHONHASHSEED=str(hashseed))
     try:
         p = subprocess.run([sys.executable, "-c", WORKER, str(repo)], input=json.dumps(spec), capture_output=True, text=True, env=env, timeout=timeout)
@@ -244,6 +257,9 @@ def determinism_search(ctx, sources, configs, seeds, workers=16):
                 ctx.note(f"worker error for {label} seed {hs}: {r['_error'][-200:]}")
                 continue
             for key, hv in r.items():
+                if hv[0] == "slow":
+                    ctx.count("search_config_too_slow")
+                    continue
                 results.setdefault((label, src_id(text), key), {}).setdefault(tuple(hv), []).append(f"{hs}/{variant}")
     return results
 
